@@ -5,7 +5,7 @@ use crate::check::*;
 use crate::explore::VRecLite;
 use crate::faults::ExtraOut;
 use crate::ops::*;
-use crate::state::*;
+
 use crate::trap;
 use crate::types::*;
 use lru_mem::LruCache;
